@@ -84,6 +84,10 @@ def para_breaks(tier: str) -> Iterator[dict[str, Any]]:
         yield dict(key=f"tagnl-before/{ctx}", fam="tagnl", ctx=ctx, special="tagnl-before", words=a + b, plines=[" ".join(a), " ".join(b)])
         a, b = V.toks(2) + ["<!-- qza -->"], V.toks(3, 12)
         yield dict(key=f"commentnl/{ctx}", fam="tagnl", ctx=ctx, special="commentnl", words=a + b, plines=[" ".join(a), " ".join(b)])
+        # a hard break directly after an escaped backslash (both spellings)
+        a, b = V.toks(2) + ["qzx" + chr(92) * 2], V.toks(2, 12)
+        yield dict(key=f"hard-after-escaped-backslash-bs/{ctx}", fam="hardbreak", ctx=ctx, special="hard-after-esc-backslash", words=a + b, plines=[" ".join(a) + chr(92), " ".join(b)])
+        yield dict(key=f"hard-after-escaped-backslash-sp/{ctx}", fam="hardbreak", ctx=ctx, special="hard-after-esc-backslash", words=a + b, plines=[" ".join(a) + "  ", " ".join(b)])
         # plain soft break inside a paragraph (must vanish)
         a, b = V.toks(3), V.toks(3, 12)
         yield dict(key=f"softbreak/{ctx}", fam="soft", ctx=ctx, special="softbreak", words=a + b, plines=[" ".join(a), " ".join(b)])
@@ -156,6 +160,10 @@ BLOCKS: list[tuple[str, str]] = [
     ("strike-variants", "qaa ~qab~ ~~qac qad~~ qae~ ~qaf\n"),
     ("table-pipes", "| `qaa\\|qab` | qac \\| qad |\n|---|---|\n| \\\\ | qae |\n"),
     ("table-backslash-pipe", "| `qaa" + chr(92) * 2 + "|qab` | qac |" + chr(10) + "|---|---|" + chr(10) + "| qad" + chr(92) * 3 + "| | qae |" + chr(10)),
+    ("fence4-indented-inner", "qaa\n\n  ````\n  x\n     ````\n  y\n  ````\n\nqab\n"),
+    ("fence4-indented-inner-tilde", "qaa\n\n ~~~~~\n x\n    ~~~~~~\n y\n ~~~~~\n\nqab\n"),
+    ("fence4-in-list-inner", "- qaa\n\n   ````\n   x\n      ````\n   y\n   ````\n- qab\n"),
+    ("fence5-plain", "`````text\nx\n````\ny\n`````\n"),
     ("quote-heading", "> ## qaa qab\n>\n> qac qad qae\n"),
     ("quote-heading-last", "> qaa qab\n>\n> ## qac\n\nqad qae\n"),
     ("quote-heading-only", "> # qaa\n"),
